@@ -19,6 +19,8 @@ import time
 ROOT = os.path.dirname(os.path.dirname(os.path.abspath(__file__)))
 REPO = os.environ.get("VERIF_REPO", "/repo")
 WORK = os.environ.get("VERIF_WORK", os.path.join(ROOT, "_work"))
+# scratch runs against another tree (VERIF_REPO + VERIF_WORK) keep their evidence and replays out of /verif
+OUTROOT = WORK if os.environ.get("VERIF_WORK") else ROOT
 SPEC = os.path.join(ROOT, "spec")
 HARNESS = os.path.join(ROOT, "harness")
 SEED = int(os.environ.get("VERIF_SEED", "1") or "1")
@@ -309,7 +311,7 @@ class Check:
             log("MODEL-DRIFT (informational) property=%s %s" % (self.prop, json.dumps(what)[:600]))
 
     def _save_replay(self, sig, detail, replay):
-        d = os.path.join(ROOT, "replays", self.prop)
+        d = os.path.join(OUTROOT, "replays", self.prop)
         os.makedirs(d, exist_ok=True)
         h = hashlib.sha1(json.dumps(sig, sort_keys=True).encode()).hexdigest()[:12]
         p = os.path.join(d, h + ".json")
@@ -324,8 +326,8 @@ class Check:
               "violations": len(self.violations), "known_findings": self.known, "model_drift": self.drift}
         if not self.cov["samples"]:
             self.cov["samples"] = ["(none)"]
-        os.makedirs(os.path.join(ROOT, "evidence"), exist_ok=True)
-        p = os.path.join(ROOT, "evidence", self.prop + ".json")
+        os.makedirs(os.path.join(OUTROOT, "evidence"), exist_ok=True)
+        p = os.path.join(OUTROOT, "evidence", self.prop + ".json")
         json.dump(ev, open(p + ".tmp", "w"), indent=1)
         os.replace(p + ".tmp", p)
         log("[%s] %s tier: states=%d transitions=%d impl-traces=%d evaluations=%d distinct=%d violations=%d known=%d drift=%d wall=%.0fs"
